@@ -7,13 +7,13 @@ EVID = os.path.join(ROOT, 'evidence')
 
 CHAIN_ASSUMPTIONS = [
     'rustc MIR lowering of the current /repo tree (nightly) is faithful to the stable build; cross-checked by native replay',
-    'library models of cosmwasm-std / cw-storage-plus / std (mirsym/models_*.py) reproduce the pinned crates; validated differentially (validate.py)',
+    'library models of cosmwasm-std / cw-storage-plus / std (mirsym/models_*.py) reproduce the pinned crates; validated differentially against the real crate on every model change (mirsym/validate.py: 71 primitives, ~9.8k boundary-rich cases, result in coverage.model_validation)',
     'integers are mathematical Ints with every overflow branch explicit (checked ops fork to Err, operator forms to abort)',
     'Err / panic of an entry point reverts the whole transaction (CosmWasm platform rule, not implemented by the repo)',
 ]
 
 
-def write(pid, tier, seed, mir_hash, results, wall, violations, replays, known_printed, extra_assumptions=()):
+def write(pid, tier, seed, mir_hash, results, wall, violations, replays, known_printed, extra_assumptions=(), model_validation=None):
     os.makedirs(EVID, exist_ok=True)
     paths = sum(r.get('paths', 0) for r in results)
     queries = sum(r.get('queries', 0) for r in results)
@@ -50,6 +50,7 @@ def write(pid, tier, seed, mir_hash, results, wall, violations, replays, known_p
             'queries': queries,
             'solver_time_s': round(sum(r.get('solver_s', 0.0) for r in results), 3),
             'solvers': ['z3 %s (python API)' % _z3v()],
+            'model_validation': model_validation,
             'known_findings_printed': [k.get('id') for k in known_printed],
             'explanation': 'states = feasible symbolic paths of the real MIR explored; transitions = SMT queries discharged; '
                            'each sample is one obligation (pre-state assumptions + real functions executed + post-condition) with its verdict',
